@@ -505,3 +505,120 @@ def gen_c15(rng, t):
 
 prop("C15", ["c15_link", "c15_invariant", "c15_disabled", "c15_sub_only_same", "c15_after_reset_or_bcast", "c15_max"],
      ["ENC"], gen_c15, [orc_c15])
+
+
+# ------------------------------------------------------------------------------------------------
+# C17 memory contract: a bag of free buffers plus one saved context per slot, evaluated in Python
+# ------------------------------------------------------------------------------------------------
+def fnv64(b):
+    h = 0xcbf29ce484222325
+    for x in b:
+        h ^= x
+        h = (h * 0x100000001b3) & 0xFFFFFFFFFFFFFFFF
+    return "%016x" % h
+
+
+def orc_c17(case, obs):
+    bad = []
+    if not any(o.startswith("M") for o in case.ops):
+        return bad
+    slots = maxpdu = 0
+    free, slot, owned, held, nprov = [], {}, [], None, 0
+
+    def bstr(b):
+        return "%d:%s" % (len(b), fnv64(b))
+
+    def cstr(c):          # ctx token fid,total,pdulen,reuse,label,ptype -> printed form (adds exts "-")
+        return c + ",-"
+
+    for op, ob in zip(case.ops, obs):
+        t = op.split(" ")
+        exp = None
+        if t[0] == "DNEW":
+            slots, maxpdu = int(t[1]), int(t[2])
+            free, slot, owned, held, nprov = [], {}, [], None, 0
+            exp = "ok"
+        elif t[0] in ("DPROV", "DPROVBACK"):
+            if t[0] == "DPROV":
+                b = bytes([(nprov * 37 + 11) & 0xFF]) * int(t[1])
+                nprov += 1
+            elif owned:
+                b = owned.pop()
+            else:
+                exp = "none"
+                b = None
+            if b is not None:
+                if len(free) == slots + 2:
+                    exp = "err Overflow:%d" % len(b)
+                    owned.append(b)
+                elif len(b) < maxpdu:
+                    exp = "err TooSmall:%d" % len(b)
+                    owned.append(b)
+                else:
+                    free.append(b)
+                    exp = "ok"
+        elif t[0] == "DNEWPDU":
+            if free:
+                b = free.pop()
+                owned.append(b)
+                exp = "ok " + bstr(b)
+            else:
+                exp = "err Underflow"
+        elif t[0] == "MNEWFRAG":
+            fid = int(t[1].split(",")[0])
+            if slots == 0:
+                exp = "err Underflow"
+            else:
+                i = fid % slots
+                if i in slot:
+                    _, b = slot.pop(i)
+                elif free:
+                    b = free.pop()
+                else:
+                    b = None
+                    exp = "err Underflow"
+                if b is not None:
+                    if held:
+                        owned.append(held[1])
+                    held = (t[1], b)
+                    exp = "ok %s;%s" % (cstr(t[1]), bstr(b))
+        elif t[0] == "MTAKE":
+            fid = int(t[1])
+            i = fid % slots if slots else None
+            if i is not None and i in slot and int(slot[i][0].split(",")[0]) == fid:
+                c, b = slot.pop(i)
+                if held:
+                    owned.append(held[1])
+                held = (c, b)
+                exp = "ok %s;%s" % (cstr(c), bstr(b))
+            else:
+                exp = "err UndefinedId"
+        elif t[0] in ("MSAVE", "MSAVEC"):
+            if held is None:
+                exp = "none"
+            else:
+                c, b = held
+                held = None
+                if t[0] == "MSAVEC":
+                    c = t[1]
+                fid = int(c.split(",")[0])
+                if slots == 0 or (fid % slots) in slot:
+                    exp = "err Corrupted"      # the trait consumes the context: the buffer is gone by design
+                else:
+                    slot[fid % slots] = (c, b)
+                    exp = "ok"
+        elif t[0] == "DOBS":
+            fr = " ".join(bstr(b) for b in reversed(free))
+            ss = []
+            for i in sorted(slot, key=lambda i: int(slot[i][0].split(",")[0])):
+                ss.append("%s;%s" % (cstr(slot[i][0]), bstr(slot[i][1])))
+            exp = "last=none free=[%s] slots=[%s]" % (fr, " ".join(ss))
+        if exp is not None and ob != exp:
+            bad.append("%s: memory answered %r, the bag/slot contract says %r" % (op[:60], ob[:120], exp[:120]))
+            break
+    return bad
+
+
+prop("C17", ["c17_total_wf", "c17_provision", "c17_new_pdu", "c17_new_frag", "c17_take_frag", "c17_save_frag", "c17_take_after_save"],
+     ["MEM"], no_cases, [orc_c17],
+     exhaustive="MEM: all operation sequences of depth 4 (quick) / 5 (thorough) over an 8-operation alphabet on 1 and 2 slots")
